@@ -33,19 +33,34 @@ type Op struct {
 }
 
 // Conflicts reports whether two ops share a footprint key (then their relative order matters).
+// A key may carry a commutativity tag after '~' ("val:V1~deleg", "acct:A1~add"): two ops that
+// touch the same key with the same tag commute by contract (both add to a balance; both edit
+// different entries of a sorted delegation list and add to the totals), anything else on
+// that key conflicts. "*" conflicts with everything, "val:*" with every validator key.
 func (o *Op) Conflicts(p *Op) bool {
-	for _, a := range o.Foot {
-		for _, b := range p.Foot {
-			if a == b || a == "*" || b == "*" {
+	for _, fa := range o.Foot {
+		for _, fb := range p.Foot {
+			a, ta := splitTag(fa)
+			b, tb := splitTag(fb)
+			if a == "*" || b == "*" {
 				return true
 			}
-			// "val:*" = every validator
+			if a == b && (ta == "" || ta != tb) {
+				return true
+			}
 			if (a == "val:*" && strings.HasPrefix(b, "val:")) || (b == "val:*" && strings.HasPrefix(a, "val:")) {
 				return true
 			}
 		}
 	}
 	return false
+}
+
+func splitTag(k string) (key, tag string) {
+	if i := strings.IndexByte(k, '~'); i >= 0 {
+		return k[:i], k[i+1:]
+	}
+	return k, ""
 }
 
 func noop(name string) *Op { return &Op{Name: name} }
@@ -175,7 +190,7 @@ func (m *Mutator) Gen(st *state.StateDB) *Op {
 	switch op {
 	case 0, 2:
 		a, v := pickAddr(c), amount(c)
-		return &Op{Name: "addbal", Desc: fmt.Sprintf("AddBalance %s %s", nm(a), v), Foot: []string{acctKey(a)},
+		return &Op{Name: "addbal", Desc: fmt.Sprintf("AddBalance %s %s", nm(a), v), Foot: []string{acctKey(a) + "~add"},
 			Apply: func(st *state.StateDB) string { st.AddBalance(a, v); return "" }}
 	case 1:
 		a := pickAddr(c)
@@ -322,6 +337,47 @@ func (m *Mutator) Gen(st *state.StateDB) *Op {
 }
 
 const nBigCodes = 6
+
+// genDeployBatch imitates a factory transaction (evm.go:338-380 several times): up to five
+// accounts are created with distinct 24 KiB codes, so that the block's TrieDB().Commit needs
+// more than one 100 KiB disk batch.
+func (m *Mutator) genDeployBatch() *Op {
+	n := 4 + m.r.C.Intn("deploy-n", 2)
+	var foot []string
+	for i := 0; i < n; i++ {
+		foot = append(foot, acctKey(accounts[i]))
+	}
+	return &Op{Name: "deploybatch", Desc: fmt.Sprintf("DeployBatch %d contracts with 24 KiB codes", n), Foot: foot,
+		Apply: func(st *state.StateDB) string {
+			for i := 0; i < n; i++ {
+				a := accounts[i]
+				if st.GetNonce(a) != 0 || st.GetCodeSize(a) != 0 {
+					continue
+				}
+				st.CreateAccount(a)
+				st.SetNonce(a, 1)
+				st.SetCode(a, bigCode(i))
+			}
+			return ""
+		}}
+}
+
+// genInitDelegators: delegators are accounts that have sent a transaction (nonce >= 1).
+func (m *Mutator) genInitDelegators() *Op {
+	var foot []string
+	for _, d := range delegators {
+		foot = append(foot, acctKey(d))
+	}
+	return &Op{Name: "initdelegators", Desc: "SetNonce(1) on every delegator account", Foot: foot,
+		Apply: func(st *state.StateDB) string {
+			for _, d := range delegators {
+				if st.GetNonce(d) == 0 {
+					st.SetNonce(d, 1)
+				}
+			}
+			return ""
+		}}
+}
 
 // bigCode returns the i-th large code blob (24 KiB, the EVM's size limit; distinct per i).
 func bigCode(i int) []byte {
@@ -544,7 +600,14 @@ func (m *Mutator) genUpdateDelegation(st *state.StateDB) *Op {
 	if sub {
 		desc = fmt.Sprintf("UpdateDelegation %s -> %s -min(%s,all=%v)", nm(d), nm(vaddr), w, all)
 	}
-	return &Op{Name: "deleg", Desc: desc, Foot: []string{valKeyOf(vaddr), acctKey(d)},
+	// footprint: the (delegator, validator) pair; the validator's totals and sorted list and the
+	// delegator's sorted list and DelegationBalance are edited commutatively by other pairs.
+	// The delegator's nonce is only written when it is still 0 (C10 initialises it up front).
+	foot := []string{"dlg:" + nm(d) + ">" + nm(vaddr), valKeyOf(vaddr) + "~deleg", "dlgacct:" + nm(d) + "~deleg"}
+	if st.GetNonce(d) == 0 {
+		foot = append(foot, acctKey(d))
+	}
+	return &Op{Name: "deleg", Desc: desc, Foot: foot,
 		Apply: func(st *state.StateDB) string {
 			val := st.GetValidatorByMainAddr(vaddr)
 			if val == nil {
@@ -641,7 +704,7 @@ func (m *Mutator) genStakingRecord(st *state.StateDB) *Op {
 		txh := common.BigToHash(big.NewInt(int64(c.Intn("txh", 1000) + 1)))
 		amt := amount(c)
 		return &Op{Name: "stakerec-d", Desc: fmt.Sprintf("AddStakingRecord d=%s v=%s tx=%s val=%s", nm(d), nm(v), nm(txh), amt),
-			Foot: []string{"srec:" + nm(d) + nm(v), "pendingr"},
+			Foot: []string{"srec:" + nm(d) + nm(v), "pendingr~add"}, // the relationship set is sorted: insertions commute
 			Apply: func(st *state.StateDB) string {
 				if !st.PendingRelationshipExist(d, v) {
 					st.AddPendingRelationship(d, v)
